@@ -407,6 +407,14 @@ func (w *World) decide() *G {
 		w.ended = true
 		return nil
 	}
+	// every goroutine is at a visible operation now: a consistent cut for the invariants
+	if len(w.res.Failures) == 0 {
+		for _, inv := range w.invs {
+			if f := inv(); f != nil {
+				w.res.Failures = append(w.res.Failures, *f)
+			}
+		}
+	}
 	var alts []ThreadAlt
 	curEnabled := false
 	for _, g := range w.gs {
@@ -466,11 +474,6 @@ func (w *World) decide() *G {
 	w.apply(g, g.pending)
 	if w.opts.Trace {
 		w.res.Trace = append(w.res.Trace, fmt.Sprintf("%4d g%-8s %-22s %s", w.Steps, g.ID, w.describe(g.pending), g.pending.site))
-	}
-	for _, inv := range w.invs {
-		if f := inv(); f != nil {
-			w.res.Failures = append(w.res.Failures, *f)
-		}
 	}
 	return g
 }
